@@ -103,14 +103,31 @@ def main() -> int:
                 except (docs.Bottomless, RecursionError):
                     pass
         plan = {"fn": "models_given", "args": {"instances": insts}}
-        add("base", "none", meta="none", plan=plan)
+        add("base", "none", meta="none", plan=plan, sandbox=[{"a": "import_all"}])
         add("base", "poetry", meta="poetry")
         # ---- renaming options
         add("names", "override", meta="poetry", cfg={"project_name_override": "my-proj-zq", "package_name_override": "my_pkg_zq", "package_version_override": "9.8.7"})
         model_keys = [k for k, v in comps.items() if docs.is_objectish(v, comps)]
-        if model_keys:
-            mk = model_keys[bi % len(model_keys)]
+        ovr_keys = model_keys + [k for k, v in comps.items() if isinstance(v, dict) and "enum" in v and v.get("type") in ("string", "integer")]
+        if ovr_keys:
+            mk = ovr_keys[bi % len(ovr_keys)]
             add("class_overrides", mk, meta="none", plan=plan, cfg={"class_overrides": {"__CLASS__": {"class_name": "RenamedZq", "module_name": "renamed_zq_mod"}}}, _override_key=mk)
+        # ---- combinations of options (rotating): the combined tree imports completely and behaves as the plain one
+        enum_keys = [k for k, v in comps.items() if isinstance(v, dict) and "enum" in v and v.get("type") in ("string", "integer")]
+        ovr = {"class_overrides": {"__CLASS__": {"class_name": "RenamedZq", "module_name": "renamed_zq_mod"}}}
+        combos = [
+            ("class_overrides+literal_enums", dict(ovr, literal_enums=True), (enum_keys or model_keys)),
+            ("field_prefix+literal_enums+docstrings", {"field_prefix": "attr_", "literal_enums": True, "docstrings_on_attributes": True}, None),
+            ("class_overrides+generate_all_tags+no_path_prefixes", dict(ovr, generate_all_tags=True, use_path_prefixes_for_title_model_names=False), (model_keys + enum_keys)),
+            ("literal_enums+generate_all_tags", {"literal_enums": True, "generate_all_tags": True}, None),
+            ("class_overrides+field_prefix+docstrings", dict(ovr, field_prefix="attr_", docstrings_on_attributes=True), (enum_keys + model_keys)),
+        ]
+        for ci_ in range(2 if quick else 5):
+            cname_, ccfg, keys = combos[(bi + ci_ * 2) % len(combos)]
+            if keys is not None and not keys:
+                continue
+            kw_ = {"_override_key": keys[bi % len(keys)]} if keys else {}
+            add("combo", cname_, meta="none", plan=plan, cfg=ccfg, sandbox=[{"a": "import_all"}], **kw_)
         add("field_prefix", "attr_", meta="none", plan=plan, cfg={"field_prefix": "attr_"})
         add("use_path_prefixes", "false", meta="none", plan=plan, cfg={"use_path_prefixes_for_title_model_names": False})
         add("literal_enums", "true", meta="none", plan=plan, cfg={"literal_enums": True})
@@ -159,13 +176,14 @@ def main() -> int:
         bi, option, variant = info[j["id"]]
         if option in ("base", "base_multitag"):
             continue
-        if option == "class_overrides":
+        if "_override_key" in j:
             bres = base[(bi, "none")][1]
             ent = ((bres.get("manifest") or {}).get("refs") or {}).get(f"/components/schemas/{j.pop('_override_key')}")
             if not ent or not ent.get("cls"):
                 continue
-            j["cfg"] = {"class_overrides": {ent["cls"]: {"class_name": "RenamedZq", "module_name": "renamed_zq_mod"}}}
-            info[j["id"]] = (bi, option, ent["cls"])
+            j["cfg"] = dict(j["cfg"], class_overrides={ent["cls"]: {"class_name": "RenamedZq", "module_name": "renamed_zq_mod"}})
+            if option == "class_overrides":
+                info[j["id"]] = (bi, option, ent["cls"])
         j.pop("_override_key", None)
         phase2.append(j)
     res2 = dict(zip([j["id"] for j in phase2], run.map(phase2, timeout=300)))
@@ -213,7 +231,20 @@ def main() -> int:
                     vd.violation(f"{option}:behaviour_differs", f"{label}: {aa['cls']} encodes {str(oa)[:100]} without and {str(ob)[:100]} with {option}={variant}", dict(w, value=aa["value"]))
                     return
 
-        if option == "names":
+        if option == "combo":
+            ev.count("option_combinations")
+            bi_, vi_ = actions_results(bres), actions_results(res)
+            bim = next((x for a, x in bi_ if a["a"] == "import_all"), None)
+            vim = next((x for a, x in vi_ if a["a"] == "import_all"), None)
+            if bim and vim and not bim.get("action_exc") and not vim.get("action_exc") and not (bim.get("errors") or bim.get("unresolved") or bim.get("syntax")):
+                for e in (vim.get("syntax") or []):
+                    vd.violation(f"combo:{variant}:syntax_error", f"{label}: {e['module']}: {e['msg']}", w)
+                for e in (vim.get("errors") or []):
+                    vd.violation(f"combo:{variant}:import_error", f"{label}: {e['module']}: {e['exc']['type']}: {e['exc']['msg'][:200]}", w)
+                for u in (vim.get("unresolved") or []):
+                    vd.violation(f"combo:{variant}:unresolved_name", f"{label}: {u['module']}:{u['line']}: {u['what']}", w)
+            behaviour_equal()
+        elif option == "names":
             pb, pv = pkg_files(bt, "option_test_api_client/option_test_api_client".split("/")[1]), pkg_files(vt, "my_pkg_zq")
             if not pv:
                 vd.violation("names:package_dir_missing", f"{label}: package directory my_pkg_zq not found: {sorted(vt)[:5]}", w)
